@@ -373,7 +373,9 @@ func (l *vLab) run(ops []vLabOp) vLabOutcome {
 	fmt.Fprintf(&sb, "a:%d/%d/%d", model.state, model.bal, model.trans)
 	for i := range model.pays {
 		if model.pays[i].exists {
-			fmt.Fprintf(&sb, " p%d:%d/%d/%d", i, model.pays[i].state, model.pays[i].bal, model.pays[i].wd)
+			// credited = balance + withdrawn: how often a payee withdrew is
+			// not part of the end state compared by the metamorphic check
+			fmt.Fprintf(&sb, " p%d:%d/%d", i, model.pays[i].state, model.pays[i].bal+model.pays[i].wd)
 		}
 	}
 	out.Final = sb.String()
